@@ -142,7 +142,7 @@ def run_comm_thread(case):
             sys.settrace(None)
         ev = threading.Event()
         fut.add_done_callback(lambda f: ev.set())
-        out['in_time'] = ev.wait(8)  # generous watchdog: the operation itself takes about a millisecond
+        out['in_time'] = ev.wait(20)  # generous watchdog: the operation itself takes about a millisecond
         out['desc'] = _describe(fut)
         loop.call_soon_threadsafe(loop.stop)
 
@@ -150,7 +150,7 @@ def run_comm_thread(case):
     th.start()
     try:
         loop.run_forever()
-        th.join(10)
+        th.join(25)
     finally:
         loop.close()
         asyncio.set_event_loop(None)
@@ -159,7 +159,7 @@ def run_comm_thread(case):
     if not out.get('in_time'):
         viol.append(V('adapter-pending', 'adapter-pending:comm_thread:%s' % (delay_at or 'nodelay'),
                       'a subscriber converted by convert_to_comm was called from another thread while the loop was idle: its reply future was still pending '
-                      'after 8 s (delay injected at %s)' % delay_at))
+                      'after 20 s (delay injected at %s)' % delay_at))
     elif not _same(out['desc'], exp, 'schedule_rpc'):
         viol.append(V('adapter-outcome', 'adapter-outcome:comm_thread:%s' % oc[0], 'reply future ended %r, the handler produced %r' % (out['desc'], exp)))
     return {'viol': viol, 'obs': obs, 'key': case, 'nontrivial': True,
